@@ -1319,8 +1319,13 @@ def get_path(root, path, default=_UNSET):
                 # doesn't support indexing
                 try:
                     seg = int(seg)
-                    cur = cur[seg]
-                except (ValueError, KeyError, IndexError, TypeError):
+                    if isinstance(cur, Set):
+                        # sets are not indexable: like remap() and research(),
+                        # address their members by position in iteration order
+                        cur = next(itertools.islice(cur, seg, None))
+                    else:
+                        cur = cur[seg]
+                except (ValueError, KeyError, IndexError, TypeError, StopIteration):
                     if not is_iterable(cur):
                         exc = TypeError('%r object is not indexable'
                                         % type(cur).__name__)
